@@ -116,6 +116,7 @@ pub enum Op {
     ClientEof,
     ClientEpipe,
     ClientStall,
+    TimerSet,
     Exit,
     MainDone,
 }
@@ -191,6 +192,8 @@ pub struct Counters {
     pub stdout_short: u64,
     pub stdout_epipe: u64,
     pub chans: u32,
+    pub timers_set: u64,
+    pub timers_fired: u64,
 }
 
 struct TaskSlot {
@@ -238,6 +241,9 @@ struct World {
     n_events: u64,
     counters: Counters,
     depth: [i64; 4],
+    /// simulated clock: (deadline tick, sequence number, waker); one tick = one millisecond
+    timers: Vec<(u64, u64, Waker)>,
+    timer_seq: u64,
 }
 
 thread_local! {
@@ -257,6 +263,28 @@ fn mix(h: u64, v: u64) -> u64 {
 }
 
 impl World {
+    /// Wake every timer that is due (in deadline, then registration order).
+    fn fire_timers(&mut self) {
+        if self.timers.is_empty() {
+            return;
+        }
+        let now = self.tick;
+        let mut due: Vec<(u64, u64, Waker)> = vec![];
+        let mut i = 0;
+        while i < self.timers.len() {
+            if self.timers[i].0 <= now {
+                due.push(self.timers.swap_remove(i));
+            } else {
+                i += 1;
+            }
+        }
+        due.sort_by_key(|t| (t.0, t.1));
+        for (_, _, w) in due {
+            self.counters.timers_fired += 1;
+            w.wake();
+        }
+    }
+
     fn log(&mut self, op: Op, a: u32, b: u32) {
         let ev = Ev {
             tick: self.tick,
@@ -646,6 +674,218 @@ pub mod stdio {
 }
 
 // ---------------------------------------------------------------------------------------------
+// Simulated clock: `tokio::time` on logical ticks (one tick = one millisecond). Nothing reads a
+// real clock; when no actor is runnable the scenario runner jumps to the next deadline.
+// ---------------------------------------------------------------------------------------------
+
+pub mod time {
+    use super::*;
+    pub use std::time::Duration;
+
+    fn now_tick() -> u64 {
+        with_world(|w| w.tick).unwrap_or(0)
+    }
+
+    fn ticks_of(d: Duration) -> u64 {
+        (d.as_millis().min(u64::MAX as u128 / 4) as u64).max(1)
+    }
+
+    /// A point of simulated time.
+    #[derive(Clone, Copy, Debug, PartialEq, Eq, PartialOrd, Ord, Hash)]
+    pub struct Instant(u64);
+
+    impl Instant {
+        pub fn now() -> Self {
+            Instant(now_tick())
+        }
+        pub fn elapsed(&self) -> Duration {
+            Duration::from_millis(now_tick().saturating_sub(self.0))
+        }
+        pub fn duration_since(&self, earlier: Instant) -> Duration {
+            Duration::from_millis(self.0.saturating_sub(earlier.0))
+        }
+        pub fn saturating_duration_since(&self, earlier: Instant) -> Duration {
+            self.duration_since(earlier)
+        }
+        pub fn checked_add(&self, d: Duration) -> Option<Instant> {
+            self.0.checked_add(d.as_millis() as u64).map(Instant)
+        }
+        pub fn checked_sub(&self, d: Duration) -> Option<Instant> {
+            self.0.checked_sub(d.as_millis() as u64).map(Instant)
+        }
+    }
+
+    impl std::ops::Add<Duration> for Instant {
+        type Output = Instant;
+        fn add(self, d: Duration) -> Instant {
+            Instant(self.0.saturating_add(d.as_millis() as u64))
+        }
+    }
+
+    impl std::ops::Sub<Duration> for Instant {
+        type Output = Instant;
+        fn sub(self, d: Duration) -> Instant {
+            Instant(self.0.saturating_sub(d.as_millis() as u64))
+        }
+    }
+
+    impl std::ops::Sub<Instant> for Instant {
+        type Output = Duration;
+        fn sub(self, other: Instant) -> Duration {
+            self.duration_since(other)
+        }
+    }
+
+    /// Future returned by [`sleep`] / [`sleep_until`].
+    #[derive(Debug)]
+    pub struct Sleep {
+        deadline: u64,
+        registered: bool,
+    }
+
+    impl Sleep {
+        pub fn deadline(&self) -> Instant {
+            Instant(self.deadline)
+        }
+        pub fn is_elapsed(&self) -> bool {
+            now_tick() >= self.deadline
+        }
+        pub fn reset(mut self: Pin<&mut Self>, deadline: Instant) {
+            self.deadline = deadline.0;
+            self.registered = false;
+        }
+    }
+
+    impl Future for Sleep {
+        type Output = ();
+        fn poll(mut self: Pin<&mut Self>, cx: &mut Context<'_>) -> Poll<()> {
+            let deadline = self.deadline;
+            let done = with_world(|w| {
+                if w.tick >= deadline {
+                    return true;
+                }
+                // (re-)register: a timer entry per poll is harmless, a stale waker only wakes
+                w.timer_seq += 1;
+                let seq = w.timer_seq;
+                w.timers.push((deadline, seq, cx.waker().clone()));
+                w.counters.timers_set += 1;
+                w.log(Op::TimerSet, (deadline - w.tick).min(u32::MAX as u64) as u32, 0);
+                false
+            })
+            .expect("simulated clock used outside of a simulation");
+            self.registered = true;
+            if done {
+                Poll::Ready(())
+            } else {
+                Poll::Pending
+            }
+        }
+    }
+
+    pub fn sleep(d: Duration) -> Sleep {
+        Sleep {
+            deadline: now_tick().saturating_add(ticks_of(d)),
+            registered: false,
+        }
+    }
+
+    pub fn sleep_until(at: Instant) -> Sleep {
+        Sleep {
+            deadline: at.0,
+            registered: false,
+        }
+    }
+
+    pub mod error {
+        /// The deadline of a [`super::timeout`] passed.
+        #[derive(Debug, PartialEq, Eq)]
+        pub struct Elapsed(pub(crate) ());
+        impl std::fmt::Display for Elapsed {
+            fn fmt(&self, f: &mut std::fmt::Formatter<'_>) -> std::fmt::Result {
+                write!(f, "deadline has elapsed")
+            }
+        }
+        impl std::error::Error for Elapsed {}
+    }
+
+    pub struct Timeout<F> {
+        fut: Pin<Box<F>>,
+        sleep: Sleep,
+    }
+
+    impl<F: Future> Future for Timeout<F> {
+        type Output = Result<F::Output, error::Elapsed>;
+        fn poll(mut self: Pin<&mut Self>, cx: &mut Context<'_>) -> Poll<Self::Output> {
+            if let Poll::Ready(v) = self.fut.as_mut().poll(cx) {
+                return Poll::Ready(Ok(v));
+            }
+            match Pin::new(&mut self.sleep).poll(cx) {
+                Poll::Ready(()) => Poll::Ready(Err(error::Elapsed(()))),
+                Poll::Pending => Poll::Pending,
+            }
+        }
+    }
+
+    pub fn timeout<F: Future>(d: Duration, fut: F) -> Timeout<F> {
+        Timeout {
+            fut: Box::pin(fut),
+            sleep: sleep(d),
+        }
+    }
+
+    pub fn timeout_at<F: Future>(at: Instant, fut: F) -> Timeout<F> {
+        Timeout {
+            fut: Box::pin(fut),
+            sleep: sleep_until(at),
+        }
+    }
+
+    #[derive(Clone, Copy, Debug, PartialEq, Eq)]
+    pub enum MissedTickBehavior {
+        Burst,
+        Delay,
+        Skip,
+    }
+
+    #[derive(Debug)]
+    pub struct Interval {
+        next: u64,
+        period: u64,
+    }
+
+    impl Interval {
+        pub async fn tick(&mut self) -> Instant {
+            let at = self.next;
+            sleep_until(Instant(at)).await;
+            self.next = at.saturating_add(self.period).max(now_tick().saturating_add(1));
+            Instant(at)
+        }
+        pub fn period(&self) -> Duration {
+            Duration::from_millis(self.period)
+        }
+        pub fn reset(&mut self) {
+            self.next = now_tick().saturating_add(self.period);
+        }
+        pub fn set_missed_tick_behavior(&mut self, _b: MissedTickBehavior) {}
+    }
+
+    /// First tick completes immediately, like tokio's.
+    pub fn interval(period: Duration) -> Interval {
+        Interval {
+            next: now_tick(),
+            period: ticks_of(period),
+        }
+    }
+
+    pub fn interval_at(start: Instant, period: Duration) -> Interval {
+        Interval {
+            next: start.0,
+            period: ticks_of(period),
+        }
+    }
+}
+
+// ---------------------------------------------------------------------------------------------
 // Panic capture and the process-exit payload
 // ---------------------------------------------------------------------------------------------
 
@@ -825,6 +1065,8 @@ impl Sim {
                 n_events: 0,
                 counters: Counters::default(),
                 depth: [0; 4],
+                timers: vec![],
+                timer_seq: 0,
             })
         });
         let main_result = std::rc::Rc::new(RefCell::new(None));
@@ -863,6 +1105,7 @@ impl Sim {
         with_world(|w| {
             w.tick += 1;
             w.current = actor;
+            w.fire_timers();
         });
     }
 
@@ -872,7 +1115,13 @@ impl Sim {
             if tick > w.tick {
                 w.tick = tick;
             }
+            w.fire_timers();
         });
+    }
+
+    /// Deadline of the earliest pending timer of the simulated clock, if any.
+    pub fn next_timer(&self) -> Option<u64> {
+        with_world(|w| w.timers.iter().map(|t| t.0).min()).flatten()
     }
 
     /// Ids of the server tasks that are woken and not finished.
@@ -905,6 +1154,7 @@ impl Sim {
         let taken = with_world(|w| {
             w.tick += 1;
             w.current = id;
+            w.fire_timers();
             w.log(Op::Poll, id as u32, 0);
             let t = &mut w.tasks[id as usize];
             t.flag.woken.store(false, Ordering::SeqCst);
